@@ -1,8 +1,11 @@
 //! Engine `changeset` (C16): a ChangeSet built from arbitrary (entity, amount)
 //! sequences must hold, per entity, the fold of its amounts in arrival order,
 //! and every join over it must pair each sum with that entity exactly once.
-//! Amounts are sequences whose `+=` appends (non-commutative, so order shows)
-//! and carry a ledger value (so double drops / leaks show).
+//! Amounts are sequences whose `+=` appends (non-commutative, so order shows),
+//! carry a running value whose `+=` is not associative (so a regrouping such as
+//! `stored += (a2 + a3)` instead of `stored += a2; stored += a3` shows: collected
+//! and extended sets must equal the set built by adding the pairs one by one)
+//! and a ledger value (so double drops / leaks show).
 
 use std::collections::{BTreeMap, BTreeSet};
 
@@ -19,18 +22,41 @@ type R = Result<(), Fail>;
 
 pub struct SeqAmt {
     pub items: Vec<u32>,
+    /// left fold of `comb` over the amounts: `comb` is neither commutative nor associative
+    pub fold: u64,
     pub val: Val,
+}
+fn fold_init(x: u32) -> u64 {
+    (x as u64 + 1).wrapping_mul(0x9E37_79B9_7F4A_7C15)
+}
+fn comb(a: u64, b: u64) -> u64 {
+    (a.rotate_left(7) ^ b).wrapping_mul(0xD6E8_FEB8_6659_FD93).wrapping_add(a >> 3)
+}
+/// The value an entity holds after its amounts were added one by one in arrival order.
+fn fold_of(items: &[u32]) -> u64 {
+    let mut it = items.iter();
+    let mut f = fold_init(*it.next().expect("an entry has at least one amount"));
+    for x in it {
+        f = comb(f, fold_init(*x));
+    }
+    f
 }
 impl SeqAmt {
     fn new(x: u32) -> SeqAmt {
         let v = Val::new(x as u64);
         ledger::given(v.id);
-        SeqAmt { items: vec![x], val: v }
+        SeqAmt { items: vec![x], fold: fold_init(x), val: v }
+    }
+    /// in-place change through a mutable join: the same as `+= new(mark)` without a ledger value
+    fn push_mark(&mut self, mark: u32) {
+        self.items.push(mark);
+        self.fold = comb(self.fold, fold_init(mark));
     }
 }
 impl std::ops::AddAssign for SeqAmt {
     fn add_assign(&mut self, rhs: SeqAmt) {
         self.items.extend(rhs.items.iter().cloned());
+        self.fold = comb(self.fold, rhs.fold);
         // rhs (and its ledger value) is consumed here
     }
 }
@@ -106,11 +132,20 @@ impl St {
         if mask != want {
             return Err(("C16", format!("{}: change set holds entries for indices {:?} but the entities mentioned are {:?}", what, mask.iter().take(12).collect::<Vec<_>>(), want.iter().take(12).collect::<Vec<_>>())));
         }
-        let got: Vec<(u32, Vec<u32>, u64)> = (self.cs.verif_mask(), &self.cs).join().map(|(i, a)| (i, a.items.clone(), a.val.observe().id)).collect();
-        for (i, items, id) in got {
+        let got: Vec<(u32, Vec<u32>, u64, u64)> = (self.cs.verif_mask(), &self.cs).join().map(|(i, a)| (i, a.items.clone(), a.val.observe().id, a.fold)).collect();
+        for (i, items, id, fold) in got {
             let (w, wid) = &self.model[&i];
             if &items != w {
                 return Err(("C16", format!("{}: entity index {} accumulated {:?} but its amounts in arrival order are {:?}", what, i, items, w)));
+            }
+            if fold != fold_of(w) {
+                return Err((
+                    "C16",
+                    format!(
+                        "{}: entity index {} holds its amounts {:?} in arrival order but combined in another grouping than adding them one by one (running value {:#x}, expected {:#x})",
+                        what, i, items, fold, fold_of(w)
+                    ),
+                ));
             }
             if id != *wid {
                 return Err(("C16", format!("{}: entity index {} holds ledger value {} instead of its first amount {}", what, i, id, wid)));
@@ -240,12 +275,12 @@ fn run_case(rep: &mut Report, case: u64) {
                     if lend {
                         let mut j = (st.cs.verif_mask().clone(), &mut st.cs).lend_join();
                         while let Some((i, a)) = j.next() {
-                            a.items.push(mark);
+                            a.push_mark(mark);
                             seen.push(i);
                         }
                     } else {
                         for (i, a) in (st.cs.verif_mask().clone(), &mut st.cs).join() {
-                            a.items.push(mark);
+                            a.push_mark(mark);
                             seen.push(i);
                         }
                     }
